@@ -44,6 +44,12 @@ enum Bad {
 		class: &'static str,
 		bytes: Vec<u8>,
 	},
+	/// VALID blocks of a competing fork whose last block reaches exactly the cumulative difficulty of the head (and
+	/// whose content differs from the best chain's): accepted, but the head may only move to strictly more work
+	TieFork {
+		class: &'static str,
+		blocks: Vec<Block>,
+	},
 }
 
 const BLOCK_CLASSES: &[&str] = &[
@@ -258,6 +264,7 @@ struct Stats {
 	twin_steps: u64,
 	late_on_fork: u64,
 	bad_blocks_on_an_ancestor_of_the_head: u64,
+	tie_forks_accepted: u64,
 }
 
 fn apply_bad(
@@ -319,6 +326,46 @@ fn apply_bad(
 		Bad::Tx { class, tx } => {
 			let r = subject.validate_tx(tx);
 			(class.to_string(), r.is_err(), false)
+		}
+		Bad::TieFork { class, blocks } => {
+			// not refused: accepted onto a fork that does not become the head
+			*stats.injected.entry(class.to_string()).or_insert(0) += 1;
+			run.eval(&format!("tie_fork;class={};head_height_band={}", class, before.head.1 / 3), true);
+			for (i, b) in blocks.iter().enumerate() {
+				match subject.process_block(b.clone(), opts) {
+					Ok(None) => {}
+					Ok(Some(t)) => {
+						run.violation(
+							&format!("C06;class={};head_moved_without_more_work", class),
+							&format!("fork block #{} (total difficulty {}) became the head although the head had total difficulty {}", i, t.total_difficulty.to_num(), before.head.2),
+							replay.clone(),
+						);
+						return false;
+					}
+					Err(e) => {
+						// a valid block must not be refused either; but that is not this property's business: count it
+						*stats.injected.entry(format!("{}.refused:{:?}", class, e).chars().take(60).collect()).or_insert(0) += 1;
+						return true;
+					}
+				}
+			}
+			stats.tie_forks_accepted += 1;
+			let after = match snapshot(subject, commits) {
+				Ok(s) => s,
+				Err(e) => {
+					run.violation(&format!("C06;class={};state_unreadable_after_fork_block", class), &e, replay.clone());
+					return false;
+				}
+			};
+			if let Some(d) = diff(&before, &after, true) {
+				run.violation(
+					&format!("C06;class={};losing_fork_block_changed_state;{}", class, d.split(' ').next().unwrap_or("")),
+					&format!("a valid fork reaching exactly the head's cumulative difficulty did not become the head, but: {}", d),
+					replay.clone(),
+				);
+				return false;
+			}
+			return true;
 		}
 		Bad::Bytes { class, bytes } => {
 			let r: Result<grin_core::core::UntrustedBlock, _> = grin_core::ser::deserialize(
@@ -400,7 +447,47 @@ fn run_history(run: &Run, idx: u64, h: &mut Hist, sc: &Scratch, stats: &mut Stat
 				let commits = h.all_commits();
 				let head = subject.head().unwrap().last_block_h;
 				let kind = prng.below(10);
-				let bad: Option<Bad> = if kind < 7 {
+				let tie = !h.real_pow && prng.chance(1, 4);
+				let bad: Option<Bad> = if tie {
+					// a competing fork of 1 or 2 valid blocks ending on EXACTLY the head's cumulative difficulty
+					let anc: Vec<Hash> = h.ledger.ancestry(&head).into_iter().rev().collect(); // head first
+					let depth = if anc.len() >= 3 && prng.chance(1, 2) { 2 } else { 1 };
+					if anc.len() > depth {
+						let fp = anc[depth];
+						let gap = h.ledger.get(&head).total_difficulty - h.ledger.get(&fp).total_difficulty;
+						let mut blocks = vec![];
+						let mut tip = fp;
+						let mut left = gap;
+						let mut ok_fork = depth as u64 <= gap;
+						for j in 0..depth {
+							if !ok_fork {
+								break;
+							}
+							let d = if j + 1 == depth { left } else { 1 + prng.below(left - (depth - j - 1) as u64) };
+							left -= d;
+							// different content: own coinbase, and a spend where one is possible
+							let coins = h.spendable(&tip);
+							let txs = match coins.first() {
+								Some(c) if prng.chance(2, 3) => vec![h.spend_tx(&[c.clone()], 1, None)],
+								_ => vec![],
+							};
+							let gb = vcommon::scenarios::mk_block_txs(h, &tip, &txs, d, "tie_fork");
+							if gb.verdict.is_err() {
+								ok_fork = false;
+								break;
+							}
+							tip = gb.hash;
+							blocks.push(gb.block);
+						}
+						if ok_fork && !blocks.is_empty() {
+							Some(Bad::TieFork { class: if depth == 1 { "tie_sibling_of_head" } else { "tie_two_block_fork" }, blocks })
+						} else {
+							None
+						}
+					} else {
+						None
+					}
+				} else if kind < 7 {
 					// bad block on the head or on a fork block
 					let class = BLOCK_CLASSES[class_cursor % BLOCK_CLASSES.len()];
 					class_cursor += 1;
@@ -629,6 +716,7 @@ fn main() {
 			twin_steps: 0,
 			late_on_fork: 0,
 			bad_blocks_on_an_ancestor_of_the_head: 0,
+			tie_forks_accepted: 0,
 		};
 		let deadline = run.tier.pick(300.0, 1200.0);
 		for i in 0..total {
@@ -659,6 +747,7 @@ fn main() {
 		run.count("twin_lockstep_deliveries", stats.twin_steps);
 		run.count("bad_blocks_on_fork_parent", stats.late_on_fork);
 		run.count("bad_blocks_on_an_ancestor_of_the_head", stats.bad_blocks_on_an_ancestor_of_the_head);
+		run.count("valid_forks_reaching_exactly_the_heads_work_accepted_without_effect", stats.tie_forks_accepted);
 		drop(sc);
 		run.finish_worker();
 	}
@@ -724,6 +813,7 @@ fn main() {
 		run.require(&format!("rejected.{}(+@fork)", c), n, run.tier.pick(1, 8));
 	}
 	run.require("bad blocks on an ancestor of the head (rewind only, nothing re-applied)", run.counter("bad_blocks_on_an_ancestor_of_the_head"), run.tier.pick(20, 200));
+	run.require("valid forks reaching exactly the head's cumulative difficulty", run.counter("valid_forks_reaching_exactly_the_heads_work_accepted_without_effect"), run.tier.pick(20, 200));
 	for c in ["header_batch_kth_bad", "header_batch_kth_bad_prev_root", "header_batch_kth_bad_prev_root.not_overtaking_header_head", "tx_spends_spent_output", "read_time_truncated_block"] {
 		run.require(&format!("rejected.{}", c), run.counter(&format!("rejected.{}", c)), run.tier.pick(2, 20));
 	}
